@@ -156,7 +156,7 @@ func parseIndexSection(sectionContents []byte, sectionsStart uint64, sos []secti
 	}
 	respSectionOffset := sectionsStart + respSectionRelOffset
 	makeRelativeToStream := func(offset, length uint64) (uint64, uint64, error) {
-		if offset+length > respso.Length {
+		if length > respso.Length || offset > respso.Length-length {
 			return 0, 0, errors.New("bundle.index: response length out-of-range")
 		}
 		return respSectionOffset + offset, length, nil
@@ -217,7 +217,7 @@ func parseIndexSectionWithVariants(sectionContents []byte, sectionsStart uint64,
 	}
 	respSectionOffset := sectionsStart + respSectionRelOffset
 	makeRelativeToStream := func(offset, length uint64) (uint64, uint64, error) {
-		if offset+length > respso.Length {
+		if length > respso.Length || offset > respso.Length-length {
 			return 0, 0, errors.New("bundle.index: response length out-of-range")
 		}
 		return respSectionOffset + offset, length, nil
@@ -486,6 +486,17 @@ func loadMetadata(bs []byte) (*meta, error) {
 
 	if len(sos) == 0 || sos[len(sos)-1].Name != "responses" {
 		return nil, &LoadMetadataError{fmt.Errorf("bundle: Last section is not \"responses\""), FormatError, fallbackURL}
+	}
+
+	// The sections follow each other from sectionsStart; together they must fit
+	// in the bundle. Checking this once (without overflowing) guarantees that
+	// every section offset and end computed below stays within bs.
+	remaining := uint64(len(bs)) - sectionsStart
+	for _, so := range sos {
+		if so.Length > remaining {
+			return nil, &LoadMetadataError{fmt.Errorf("bundle: section %q (length %d) does not fit in the bundle", so.Name, so.Length), FormatError, fallbackURL}
+		}
+		remaining -= so.Length
 	}
 
 	meta := &meta{
